@@ -927,6 +927,7 @@ func engineConcLRU(ctx *Ctx) {
 	}
 	ctx.R.Extra["distinct_interleaving_shapes_per_shard_sum"] = len(shapes)
 	c11Snapshots(ctx, r)
+	c11SweepRounds(ctx, r)
 	// hammer phase for the race detector: more goroutines, longer, no recording
 	for round := 0; round < ctx.Pick(6, 40); round++ {
 		lru := cache.NewLRUCache(1+r.Intn(4), []time.Duration{0, time.Hour}[r.Intn(2)])
@@ -1146,4 +1147,87 @@ func c11WaitOrDeadlock(ctx *Ctx, wg *sync.WaitGroup, cs interface{}, what string
 	ctx.R.Write()
 	os.Exit(0)
 	return false
+}
+
+// c11SweepRounds: "as if its operations happened one at a time", for sweeps that overlap. A cache is filled, every entry
+// outlives its lifetime (virtual time), nothing is stored during the round. Run alone, a sweep followed by Size() on this tree
+// gives 0 (established first, sequentially: when it does not, the tree's sweeps are lazy and the round proves nothing). Then
+// three goroutines sweep at the same moment while others look up a key that is never stored; each reads Size() after ITS sweep
+// has returned: in every one-at-a-time order that read comes after a completed sweep of an all-expired cache.
+func c11SweepRounds(ctx *Ctx, r *rand.Rand) {
+	const ttl = time.Hour
+	opts := cache.SearchOptions{Limit: 5}
+	res := []cache.SearchResult{{Command: "x", Score: 1}}
+	fill := func(sc *cache.SearchCache, n int) {
+		for i := 0; i < n; i++ {
+			sc.Put(fmt.Sprintf("sweep round entry %d", i), opts, res)
+		}
+		sc.VerifLRU().VerifAdvance(ttl + time.Minute)
+	}
+	cs := map[string]interface{}{"part": "overlapping sweeps of an all-expired cache", "entries": 200, "sweepers": 3, "background_lookups": 6}
+	ctx.R.Begin(cs)
+	seqOK := true
+	ctx.R.Guard("C11", "CleanupExpired/alone", cs, func() {
+		for k := 0; k < 5; k++ {
+			sc := cache.NewSearchCache(1000, ttl)
+			fill(sc, 200)
+			sc.CleanupExpired()
+			if sc.Size() != 0 {
+				seqOK = false
+			}
+		}
+	})
+	if !seqOK {
+		ctx.R.Inconcl("a sweep run alone leaves expired entries: overlapping sweeps prove nothing")
+		return
+	}
+	rounds := ctx.Pick(150, 1500)
+	for rd := 0; rd < rounds; rd++ {
+		sc := cache.NewSearchCache(1000, ttl)
+		fill(sc, 200)
+		var stop int32
+		var bg, wg sync.WaitGroup
+		for g := 0; g < 6; g++ {
+			bg.Add(1)
+			go func() {
+				defer bg.Done()
+				for atomic.LoadInt32(&stop) == 0 {
+					sc.Get("never stored", opts)
+				}
+			}()
+		}
+		start := make(chan struct{})
+		removed, sizeAfter := make([]int, 3), make([]int, 3)
+		for k := 0; k < 3; k++ {
+			wg.Add(1)
+			go func(k int) {
+				defer wg.Done()
+				<-start
+				removed[k] = sc.CleanupExpired()
+				sizeAfter[k] = sc.Size()
+			}(k)
+		}
+		close(start)
+		wg.Wait()
+		atomic.StoreInt32(&stop, 1)
+		bg.Wait()
+		ctx.R.Eval(3)
+		ctx.R.Path("overlapping-sweep-rounds", 1)
+		sum := 0
+		for k := 0; k < 3; k++ {
+			sum += removed[k]
+			if sizeAfter[k] != 0 {
+				ctx.R.Violate(vlib.Violation{Property: "C11", Clause: "not-linearizable", Path: "CleanupExpired+Size/overlapping-sweeps",
+					Detail:  fmt.Sprintf("round %d: a goroutine's CleanupExpired() returned %d and its next Size() was %d; all 200 entries had expired before the call and nothing was stored - in no one-at-a-time order does a read that follows a completed sweep see them (alone, sweep then Size gives 0)", rd, removed[k], sizeAfter[k]),
+					Witness: map[string]interface{}{"case": cs, "removed_by_each_sweep": removed, "size_read_after_each_sweep": sizeAfter}})
+				return
+			}
+		}
+		if sum != 200 {
+			ctx.R.Violate(vlib.Violation{Property: "C11", Clause: "not-linearizable", Path: "CleanupExpired/overlapping-sweeps",
+				Detail: fmt.Sprintf("round %d: the three sweeps report %v removals; 200 expired entries were there", rd, removed), Witness: cs})
+			return
+		}
+	}
+	ctx.R.Nontriv("overlapping-sweeps", ctx.Seed, ctx.Shard)
 }
